@@ -1010,7 +1010,7 @@ package wire
 //@   callsite (*wire.Server).writeParameters [authed-before-params] {C01 C12} #nAccept == old(#nAccept) + 1 && #nZ == old(#nZ) && $params == srv.Parameters && $writer == writer
 //@   callsite callback:wire.SessionHandler [session-once-after-auth] {C19 C01} #nAccept == old(#nAccept) + 1 && #nSession == old(#nSession) && #nZ == old(#nZ) && $self == srv.Session
 //@   callsite (*wire.Session).consumeCommands [session-before-commands] {C19 C01 C12} #nAccept == old(#nAccept) + 1 && #nSession == old(#nSession) + 1 && #sessErrTag == 0 && val($ctx) == #sessCtx && #nZ == old(#nZ) && #nParse == old(#nParse) && #nExec == old(#nExec) && $reader == reader && $writer == writer && $conn == conn
-//@   callsite callback:(*wire.Server).serve.srv.Statements [fresh-caches] {C07 C15} true
+//@   callsite callback:wire.Server.Statements [fresh-caches] {C07 C15} true
 //@   atreturn [cancel-silent] {C12} version == 80877102 ==> (OutSame() && #nParse == old(#nParse) && #nExec == old(#nExec) && #nSession == old(#nSession) && #nAccept == old(#nAccept) && #nValidate == old(#nValidate))
 //@   atreturn [no-session-without-auth] {C01} #nAccept == old(#nAccept) ==> (#nParse == old(#nParse) && #nExec == old(#nExec) && #nSession == old(#nSession) && #nZ == old(#nZ))
 //@   modifies ServeGhosts(), srv.wg.#wgcnt
